@@ -115,6 +115,34 @@ def echo_lines(x, p):
     x.check('one output line per source line', len(lines) == nl + tail)
 
 
+LITERAL_BODIES = [b'say "hi"', b"it's", b'a\\b', b'tab\there', b'q"\'q',
+                  b'\x00\x011', b'nl\nnl', b'\xff\x80']
+
+
+def same_value_twice(x, p):
+    """A program that holds the same string value several times, spelled with
+    either quote character and as a long string: every literal is written so
+    that it reads back to that value."""
+    body = x.choice('body', LITERAL_BODIES)
+    order = x.choice('order', [(34, 39), (39, 34)])
+    toks = []
+    for q in order + order:
+        toks.append(lexer.TokString(body, 0, 0, quote=bytes([q])))
+        toks.append(lexer.TokSpace(b' '))
+    toks.append(lexer.TokNewline(b'\n'))
+    out = b''.join(lua.LuaEchoWriter(tokens=toks, root=None).to_lines())
+    x.out('out', out)
+    lx = lexer.Lexer(version=8)
+    try:
+        lx.process_lines([out])
+    except Exception as e:
+        x.check('the written literals lex', False, info=repr(e))
+        return
+    vals = [t.value for t in lx.tokens if isinstance(t, lexer.TokString)]
+    x.check('every literal reads back to the value it was written for',
+            vals == [body] * 4, info=repr(vals)[:120])
+
+
 SOURCES = [b'?"hi" // note\nx=1 -- c\nif (x) y=2 else y=3\n',
            b'x+=1 y-=2\nz="a\\65"..[[l\n]] // d\n::l:: goto l\n',
            b'function _update() end\nlocal t={1,2;3}\nif (t) ?t[1]\n']
@@ -183,6 +211,7 @@ HARNESSES = [
             thorough=[dict(Q, n=n, level=l) for n in (0, 1, 3, 4)
                       for l in (0, 1, 2)]),
     Harness('after_other_writer', after_other_writer, quick=[Q]),
+    Harness('same_value_twice', same_value_twice, quick=[Q]),
     Harness('echo_lines', echo_lines, quick=[dict(Q, k=3)],
             thorough=[dict(Q, k=5, _budget=900)]),
 ]
